@@ -261,3 +261,473 @@ pub fn asc_sentinels() -> Vec<Program> {
         mk("S03", 2, vec![vec![swap(0, 1, Sc), fadd(0, 0, Sc)], vec![fadd(0, 0, Sc), swap(0, 2, Sc)], vec![swap(1, 3, Sc)]]),
     ]
 }
+
+// ------------------------------------------------------------------------------------------
+// generic canonicalisation over object kinds
+// ------------------------------------------------------------------------------------------
+
+/// (kind, index) references of an op; kinds: 0 atomic, 1 mutex, 2 rwlock, 3 condvar, 4 notify,
+/// 5 chan, 6 cell
+fn obj_refs(k: &mut K) -> Vec<(u8, &mut usize)> {
+    match k {
+        K::Load { a, .. } | K::Store { a, .. } | K::Swap { a, .. } | K::FetchAdd { a, .. } | K::Cas { a, .. } | K::UnsyncLoad { a } | K::WithMut { a } | K::Await { a, .. } => vec![(0, a)],
+        K::Lock { m } | K::TryLock { m } | K::Unlock { m } => vec![(1, m)],
+        K::Read { l } | K::TryRead { l } | K::UnlockR { l } | K::Write { l } | K::TryWrite { l } | K::UnlockW { l } => vec![(2, l)],
+        K::Wait { cv, m } => vec![(3, cv), (1, m)],
+        K::NotifyOne { cv } | K::NotifyAll { cv } => vec![(3, cv)],
+        K::NWait { n } | K::NNotify { n } => vec![(4, n)],
+        K::Send { ch, .. } | K::Recv { ch } | K::TryRecv { ch } | K::DropRx { ch } => vec![(5, ch)],
+        K::CellRead { c } | K::CellWrite { c } => vec![(6, c)],
+        _ => vec![],
+    }
+}
+
+fn obj_refs_ro(k: &K) -> Vec<(u8, usize)> {
+    let mut k = k.clone();
+    obj_refs(&mut k).into_iter().map(|(a, b)| (a, *b)).collect()
+}
+
+/// Sort child threads and rename objects of every kind in first-use order (a few rounds).
+pub fn canon_children(mut ch: Vec<Vec<Op>>, keep_kinds: &[u8]) -> Vec<Vec<Op>> {
+    for _ in 0..3 {
+        ch.sort();
+        let mut maps: Vec<Vec<Option<usize>>> = vec![vec![None; 8]; 8];
+        let mut next = [0usize; 8];
+        for op in ch.iter_mut().flatten() {
+            for (kind, idx) in obj_refs(&mut op.k) {
+                if keep_kinds.contains(&kind) {
+                    continue;
+                }
+                let m = &mut maps[kind as usize];
+                if m[*idx].is_none() {
+                    m[*idx] = Some(next[kind as usize]);
+                    next[kind as usize] += 1;
+                }
+            }
+        }
+        for op in ch.iter_mut().flatten() {
+            for (kind, idx) in obj_refs(&mut op.k) {
+                if keep_kinds.contains(&kind) {
+                    continue;
+                }
+                *idx = maps[kind as usize][*idx].unwrap();
+            }
+        }
+    }
+    ch.sort();
+    ch
+}
+
+fn count_objs(threads: &mut [Vec<Op>]) -> [usize; 8] {
+    let mut n = [0usize; 8];
+    for op in threads.iter_mut().flatten() {
+        for (kind, idx) in obj_refs(&mut op.k) {
+            n[kind as usize] = n[kind as usize].max(*idx + 1);
+        }
+    }
+    n
+}
+
+fn objs_from_counts(n: [usize; 8]) -> Objs {
+    Objs { atomics: vec![0; n[0]], mutexes: n[1], rwlocks: n[2], condvars: n[3], notifies: n[4], chans: n[5], cells: n[6], ..Default::default() }
+}
+
+// ------------------------------------------------------------------------------------------
+// LOCK
+// ------------------------------------------------------------------------------------------
+
+#[derive(Clone, Copy, PartialEq, Eq)]
+enum HeldKind {
+    Mutex,
+    Read,
+    Write,
+}
+
+#[derive(Clone, Copy)]
+struct Held {
+    kind: HeldKind,
+    idx: usize,
+    /// index of the try op that acquired it (ops inside are guarded by its success)
+    try_at: Option<usize>,
+}
+
+/// All well-formed lock threads of at most `maxlen` ops over `nm` mutexes and `nl` rwlocks.
+/// The data atomic a0 is only touched while holding a mutex / write lock (fetch_add) or a read
+/// lock (load). `with_try`: include try_lock / try_read / try_write.
+pub fn lock_threads(nm: usize, nl: usize, maxlen: usize, with_try: bool, with_data: bool) -> Vec<Vec<Op>> {
+    fn rec(ops: &mut Vec<Op>, held: &mut Vec<Held>, left: usize, nm: usize, nl: usize, with_try: bool, with_data: bool, out: &mut Vec<Vec<Op>>) {
+        if held.is_empty() && !ops.is_empty() {
+            out.push(ops.clone());
+        }
+        if left == 0 {
+            return;
+        }
+        // the guard every new op inherits: the innermost enclosing try section
+        let guard = held.iter().rev().find_map(|h| h.try_at).map(|i| Guard { idx: i, res: Res::Ok(0) });
+        let in_try = guard.is_some();
+        let push = |ops: &mut Vec<Op>, k: K| ops.push(Op { g: guard, k });
+        // releases (any held lock, any order => overlapping sections)
+        for hi in 0..held.len() {
+            let h = held[hi];
+            // ops are guarded by the innermost try only, so a lock taken inside a try section
+            // must be released inside it, and a try section may only be closed when it is innermost
+            if let Some(inner_pos) = held.iter().rposition(|x| x.try_at.is_some()) {
+                if hi < inner_pos {
+                    continue;
+                }
+                // the try section itself closes last
+                if hi == inner_pos && hi != held.len() - 1 {
+                    continue;
+                }
+            }
+            let k = match h.kind {
+                HeldKind::Mutex => K::Unlock { m: h.idx },
+                HeldKind::Read => K::UnlockR { l: h.idx },
+                HeldKind::Write => K::UnlockW { l: h.idx },
+            };
+            let removed = held.remove(hi);
+            // the unlock of a try section is guarded by the try itself
+            let g = if removed.try_at.is_some() { removed.try_at.map(|i| Guard { idx: i, res: Res::Ok(0) }) } else { guard };
+            ops.push(Op { g, k });
+            rec(ops, held, left - 1, nm, nl, with_try, with_data, out);
+            ops.pop();
+            held.insert(hi, removed);
+        }
+        // data
+        if with_data {
+            let excl = held.iter().any(|h| h.kind != HeldKind::Read);
+            let shared = held.iter().any(|h| h.kind == HeldKind::Read);
+            if excl && left >= 2 {
+                push(ops, K::FetchAdd { a: 0, v: 1, mo: MO::Rlx });
+                rec(ops, held, left - 1, nm, nl, with_try, with_data, out);
+                ops.pop();
+            } else if shared && left >= 2 {
+                push(ops, K::Load { a: 0, mo: MO::Rlx });
+                rec(ops, held, left - 1, nm, nl, with_try, with_data, out);
+                ops.pop();
+            }
+        }
+        // acquires need room for the matching release
+        if left >= 2 {
+            for m in 0..nm {
+                if held.iter().any(|h| h.kind == HeldKind::Mutex && h.idx == m) {
+                    continue;
+                }
+                push(ops, K::Lock { m });
+                held.push(Held { kind: HeldKind::Mutex, idx: m, try_at: None });
+                rec(ops, held, left - 1, nm, nl, with_try, with_data, out);
+                held.pop();
+                ops.pop();
+                if with_try && !in_try {
+                    let at = ops.len();
+                    push(ops, K::TryLock { m });
+                    held.push(Held { kind: HeldKind::Mutex, idx: m, try_at: Some(at) });
+                    rec(ops, held, left - 1, nm, nl, with_try, with_data, out);
+                    held.pop();
+                    ops.pop();
+                }
+            }
+            for l in 0..nl {
+                if held.iter().any(|h| h.kind != HeldKind::Mutex && h.idx == l) {
+                    continue;
+                }
+                for (kind, blocking) in [(HeldKind::Read, true), (HeldKind::Write, true), (HeldKind::Read, false), (HeldKind::Write, false)] {
+                    if !blocking && (!with_try || in_try) {
+                        continue;
+                    }
+                    let at = ops.len();
+                    let k = match (kind, blocking) {
+                        (HeldKind::Read, true) => K::Read { l },
+                        (HeldKind::Write, true) => K::Write { l },
+                        (HeldKind::Read, false) => K::TryRead { l },
+                        (HeldKind::Write, false) => K::TryWrite { l },
+                        _ => unreachable!(),
+                    };
+                    push(ops, k);
+                    held.push(Held { kind, idx: l, try_at: if blocking { None } else { Some(at) } });
+                    rec(ops, held, left - 1, nm, nl, with_try, with_data, out);
+                    held.pop();
+                    ops.pop();
+                }
+            }
+        }
+    }
+    let mut out = vec![];
+    rec(&mut vec![], &mut vec![], maxlen, nm, nl, with_try, with_data, &mut out);
+    out.sort();
+    out.dedup();
+    out
+}
+
+pub fn lock_family(nm: usize, nl: usize, nthreads: usize, maxlen: usize, max_total: usize, with_try: bool, with_data: bool) -> Vec<Program> {
+    let pool = lock_threads(nm, nl, maxlen, with_try, with_data);
+    let mut seen = HashSet::new();
+    let mut out = vec![];
+    for ch in thread_sets(&pool, nthreads, max_total) {
+        // at least one lock object shared by two threads
+        let mut ch = canon_children(ch, &[0]);
+        let n = count_objs(&mut ch);
+        let mut shared = false;
+        for kind in [1u8, 2u8] {
+            for idx in 0..n[kind as usize] {
+                let users = ch.iter().filter(|t| t.iter().any(|op| obj_refs_ro(&op.k).iter().any(|(k2, i2)| *k2 == kind && *i2 == idx))).count();
+                if users >= 2 {
+                    shared = true;
+                }
+            }
+        }
+        if !shared {
+            continue;
+        }
+        let mut objs = objs_from_counts(n);
+        let tail = if with_data {
+            objs.atomics = vec![0];
+            vec![ld(0, MO::Rlx)]
+        } else {
+            vec![]
+        };
+        let p = with_main("LOCK", objs, vec![], ch, vec![], tail);
+        if seen.insert(p.text()) {
+            out.push(p);
+        }
+    }
+    out
+}
+
+pub fn lock_sentinels() -> Vec<Program> {
+    let o = |m: usize, l: usize, a: usize| Objs { mutexes: m, rwlocks: l, atomics: vec![0; a], ..Default::default() };
+    let lk = |m| Op::from(K::Lock { m });
+    let ul = |m| Op::from(K::Unlock { m });
+    let d = || fadd(0, 1, MO::Rlx);
+    vec![
+        // S04 AB-BA deadlock
+        with_main("S04", o(2, 0, 0), vec![], vec![vec![lk(0), lk(1), ul(1), ul(0)], vec![lk(1), lk(0), ul(0), ul(1)]], vec![], vec![]),
+        // S05 three threads on one mutex, one uses try_lock
+        with_main(
+            "S05",
+            o(1, 0, 1),
+            vec![],
+            vec![vec![lk(0), d(), ul(0)], vec![lk(0), d(), ul(0)], vec![K::TryLock { m: 0 }.into(), K::FetchAdd { a: 0, v: 1, mo: MO::Rlx }.when(0, Res::Ok(0)), K::Unlock { m: 0 }.when(0, Res::Ok(0))]],
+            vec![],
+            vec![ld(0, MO::Rlx)],
+        ),
+        // S06 rwlock: two readers, one writer, one try_write
+        with_main(
+            "S06",
+            o(0, 1, 1),
+            vec![],
+            vec![
+                vec![K::Read { l: 0 }.into(), ld(0, MO::Rlx), K::UnlockR { l: 0 }.into()],
+                vec![K::Read { l: 0 }.into(), ld(0, MO::Rlx), K::UnlockR { l: 0 }.into()],
+                vec![K::Write { l: 0 }.into(), d(), K::UnlockW { l: 0 }.into()],
+            ],
+            vec![K::TryWrite { l: 0 }.into(), K::FetchAdd { a: 0, v: 1, mo: MO::Rlx }.when(3, Res::Ok(0)), K::UnlockW { l: 0 }.when(3, Res::Ok(0))],
+            vec![ld(0, MO::Rlx)],
+        ),
+        // S07 hand-over-hand x2
+        with_main("S07", o(2, 0, 1), vec![], vec![vec![lk(0), d(), lk(1), ul(0), d(), ul(1)], vec![lk(0), d(), lk(1), ul(0), d(), ul(1)]], vec![], vec![ld(0, MO::Rlx)]),
+    ]
+}
+
+// ------------------------------------------------------------------------------------------
+// WAIT
+// ------------------------------------------------------------------------------------------
+
+/// Blocks a WAIT thread is made of. Objects: condvar 0 + mutex 0 + flag atomic 0, notify 0.
+fn wait_blocks(nthreads_total: usize, me: usize, with_notify: bool, with_park: bool, with_cv: bool) -> Vec<Vec<Op>> {
+    let mut b: Vec<Vec<Op>> = vec![];
+    if with_cv {
+        // waiter without a flag (a lost wake-up deadlocks)
+        b.push(vec![K::Lock { m: 0 }.into(), K::Wait { cv: 0, m: 0 }.into(), K::Unlock { m: 0 }.into()]);
+        // waiter that checks the flag first (wait only if the flag is still 0)
+        b.push(vec![K::Lock { m: 0 }.into(), ld(0, MO::Rlx), K::Wait { cv: 0, m: 0 }.when(1, Res::V(0)), K::Unlock { m: 0 }.into()]);
+        // notifiers: bare and under the mutex with the flag
+        b.push(vec![K::NotifyOne { cv: 0 }.into()]);
+        b.push(vec![K::NotifyAll { cv: 0 }.into()]);
+        b.push(vec![K::Lock { m: 0 }.into(), st(0, 1, MO::Rlx), K::NotifyOne { cv: 0 }.into(), K::Unlock { m: 0 }.into()]);
+        b.push(vec![K::Lock { m: 0 }.into(), st(0, 1, MO::Rlx), K::NotifyAll { cv: 0 }.into(), K::Unlock { m: 0 }.into()]);
+    }
+    if with_notify {
+        b.push(vec![K::NWait { n: 0 }.into()]);
+        b.push(vec![K::NNotify { n: 0 }.into()]);
+    }
+    if with_park {
+        b.push(vec![K::Park.into()]);
+        for t in 0..nthreads_total {
+            // a child can only name main or an earlier-spawned sibling (its handle exists then)
+            if t != me && (me == 0 || t < me) {
+                b.push(vec![K::Unpark { t }.into()]);
+            }
+        }
+    }
+    b
+}
+
+/// Relocate guard indices when blocks are concatenated
+fn concat_blocks(blocks: &[Vec<Op>]) -> Vec<Op> {
+    let mut out: Vec<Op> = vec![];
+    for b in blocks {
+        let base = out.len();
+        for op in b {
+            let mut op = op.clone();
+            if let Some(g) = op.g.as_mut() {
+                g.idx += base;
+            }
+            out.push(op);
+        }
+    }
+    out
+}
+
+/// WAIT family: `nchildren` child threads of 1..=maxblocks blocks each, main runs up to
+/// `main_blocks` blocks between spawn and join.
+pub fn wait_family(nchildren: usize, maxblocks: usize, main_blocks: usize, max_total_ops: usize, with_notify: bool, with_park: bool, with_cv: bool) -> Vec<Program> {
+    let total = nchildren + 1;
+    // per-thread pools (unpark targets depend on the thread index)
+    let mut pools: Vec<Vec<Vec<Op>>> = vec![];
+    for me in 0..total {
+        let blocks = wait_blocks(total, me, with_notify, with_park, with_cv);
+        let mut pool: Vec<Vec<Op>> = vec![];
+        let maxb = if me == 0 { main_blocks } else { maxblocks };
+        let mut cur: Vec<Vec<Vec<Op>>> = vec![vec![]];
+        if me == 0 {
+            pool.push(vec![]);
+        }
+        for _ in 0..maxb {
+            let mut nxt = vec![];
+            for s in &cur {
+                for bl in &blocks {
+                    let mut s2 = s.clone();
+                    s2.push(bl.clone());
+                    nxt.push(s2);
+                }
+            }
+            for s in &nxt {
+                pool.push(concat_blocks(s));
+            }
+            cur = nxt;
+        }
+        pools.push(pool);
+    }
+    let mut out = vec![];
+    let mut seen = HashSet::new();
+    // cartesian product over children (no symmetry reduction across children because unpark
+    // targets name thread indices); dedupe by text
+    fn rec(pools: &[Vec<Vec<Op>>], t: usize, cur: &mut Vec<Vec<Op>>, left: usize, out: &mut Vec<Vec<Vec<Op>>>) {
+        if t == pools.len() {
+            out.push(cur.clone());
+            return;
+        }
+        for th in &pools[t] {
+            if th.len() > left {
+                continue;
+            }
+            cur.push(th.clone());
+            rec(pools, t + 1, cur, left - th.len(), out);
+            cur.pop();
+        }
+    }
+    let mut combos = vec![];
+    rec(&pools, 0, &mut vec![], max_total_ops, &mut combos);
+    for c in combos {
+        let main_mid = c[0].clone();
+        let children: Vec<Vec<Op>> = c[1..].to_vec();
+        // well-formedness: at most one thread waits on the Notify object (loom asserts this)
+        let nwaiters = c.iter().filter(|t| t.iter().any(|op| matches!(op.k, K::NWait { .. }))).count();
+        if nwaiters > 1 {
+            continue;
+        }
+        // something must be able to interact: skip programs where no thread waits at all
+        let waits = c.iter().flatten().any(|op| matches!(op.k, K::Wait { .. } | K::NWait { .. } | K::Park));
+        if !waits {
+            continue;
+        }
+        let mut all = c.clone();
+        let n = count_objs(&mut all);
+        let mut objs = objs_from_counts(n);
+        // main's guard indices shift by the number of spawns
+        let shift = children.len();
+        let main_mid: Vec<Op> = main_mid
+            .into_iter()
+            .map(|mut op| {
+                if let Some(g) = op.g.as_mut() {
+                    g.idx += shift;
+                }
+                op
+            })
+            .collect();
+        let uses_flag = n[0] > 0;
+        if uses_flag {
+            objs.atomics = vec![0];
+        }
+        let p = with_main("WAIT", objs, vec![], children, main_mid, vec![]);
+        if seen.insert(p.text()) {
+            out.push(p);
+        }
+    }
+    out
+}
+
+// ------------------------------------------------------------------------------------------
+// CHAN
+// ------------------------------------------------------------------------------------------
+
+/// CHAN family: `nsenders` sender threads with 1..=max_sends sends each, the receiver (a child
+/// thread) runs every sequence of recv / try_recv of length 0..=max_recv, optionally followed by
+/// dropping the receiver.
+pub fn chan_family(nsenders: usize, max_sends: usize, max_recv: usize, with_drop: bool) -> Vec<Program> {
+    let mut out = vec![];
+    let mut seen = HashSet::new();
+    // sender threads: non-decreasing number of sends (symmetry)
+    fn send_counts(n: usize, max: usize, start: usize, cur: &mut Vec<usize>, out: &mut Vec<Vec<usize>>) {
+        if cur.len() == n {
+            out.push(cur.clone());
+            return;
+        }
+        for k in start..=max {
+            cur.push(k);
+            send_counts(n, max, k, cur, out);
+            cur.pop();
+        }
+    }
+    let mut sc = vec![];
+    send_counts(nsenders, max_sends, 1, &mut vec![], &mut sc);
+    let ralpha: Vec<Op> = vec![K::Recv { ch: 0 }.into(), K::TryRecv { ch: 0 }.into()];
+    let mut rseqs = vec![vec![]];
+    rseqs.extend(seqs(&ralpha, max_recv));
+    for counts in &sc {
+        let mut v = 0u64;
+        let senders: Vec<Vec<Op>> = counts
+            .iter()
+            .map(|&k| {
+                (0..k)
+                    .map(|_| {
+                        v += 1;
+                        Op::from(K::Send { ch: 0, v })
+                    })
+                    .collect()
+            })
+            .collect();
+        for rs in &rseqs {
+            for drop in [false, true] {
+                if drop && !with_drop {
+                    continue;
+                }
+                let mut r = rs.clone();
+                if drop {
+                    r.push(K::DropRx { ch: 0 }.into());
+                }
+                if r.is_empty() {
+                    continue;
+                }
+                let mut ch = senders.clone();
+                ch.push(r);
+                let p = with_main("CHAN", Objs { chans: 1, ..Default::default() }, vec![], ch, vec![], vec![]);
+                if seen.insert(p.text()) {
+                    out.push(p);
+                }
+            }
+        }
+    }
+    out
+}
